@@ -93,8 +93,11 @@ type TDoc struct {
 	N     float64
 }
 
-func buildTyped(name string) interface{} {
+func buildTyped(name string, seed uint64) interface{} {
 	mk := func() *TDoc {
+		if seed > 1 {
+			return mkTDocSeeded(seed)
+		}
 		return &TDoc{
 			Nums:  []float64{3, 1, 2},
 			Strs:  []string{"b", "a"},
@@ -121,13 +124,66 @@ func buildTyped(name string) interface{} {
 	panic("unknown typed doc " + name)
 }
 
+// mkTDocSeeded: typed document with seeded slice lengths (0..40: past the thresholds
+// at which an implementation may switch strategy) and values.
+func mkTDocSeeded(seed uint64) *TDoc {
+	r := seed
+	next := func() uint64 { r = simrt.Mix(r, 0x7d); return r }
+	n := func() int {
+		switch next() % 6 {
+		case 0:
+			return int(next() % 3)
+		case 1, 2:
+			return 3 + int(next()%6)
+		case 3:
+			return 9 + int(next()%9)
+		default:
+			return 17 + int(next()%24)
+		}
+	}
+	d := &TDoc{S: "héllo", N: -3.5, P: &TObj{7, "p", []int{4, 5}}}
+	d.Nums = make([]float64, n())
+	for i := range d.Nums {
+		d.Nums[i] = float64(next() % 50)
+	}
+	d.Strs = make([]string, n())
+	for i := range d.Strs {
+		d.Strs[i] = string(rune('a' + next()%20))
+	}
+	d.Objs = make([]TObj, n())
+	for i := range d.Objs {
+		d.Objs[i] = TObj{float64(next() % 30), string(rune('a' + next()%20)), []int{int(next() % 9)}}
+	}
+	d.PObjs = make([]*TObj, n()%8)
+	for i := range d.PObjs {
+		d.PObjs[i] = &TObj{float64(next() % 30), string(rune('a' + next()%20)), nil}
+	}
+	d.Grid = make([][]int, n()%7)
+	for i := range d.Grid {
+		d.Grid[i] = make([]int, next()%5)
+		for j := range d.Grid[i] {
+			d.Grid[i][j] = int(next() % 9)
+		}
+	}
+	a := make([]interface{}, n())
+	for i := range a {
+		a[i] = float64(next() % 40)
+	}
+	d.M = map[string]interface{}{"a": a, "b": map[string]interface{}{"c": 1.0}}
+	d.Any = make([]interface{}, n())
+	for i := range d.Any {
+		d.Any[i] = map[string]interface{}{"k": float64(next() % 30)}
+	}
+	return d
+}
+
 var typedDocNames = []string{"tdoc-ptr", "tdoc-val", "tslice", "tmap"}
 
 // typedFnExprs: every array-taking built-in on every typed (non-[]interface{}) field.
 func init() {
 	fields := []string{"nums", "strs", "objs", "pObjs", "grid", "any", "m.a", "@", "ptr.nums", "ptr.strs", "gen", "objs[*].t", "objs[0].t"}
 	fns := []string{"sort(%s)", "reverse(%s)", "sort_by(%s, &@)", "sort_by(%s, &k)", "max(%s)", "min(%s)", "sum(%s)", "avg(%s)", "join(',', %s)", "length(%s)", "to_array(%s)", "map(&@, %s)", "max_by(%s, &k)", "min_by(%s, &@)",
-		"contains(%s, `1`)", "not_null(%s)", "to_string(%s)", "type(%s)", "%s[]", "%s[::-1]", "%s[?@]", "%s[*]", "%s | sort(@)", "[%s, %s] | [0] | sort(@)", "%s[*] | sort(@)", "keys(%s)", "merge(%s)"}
+		"contains(%s, `1`)", "not_null(%s)", "to_string(%s)", "type(%s)", "%s[]", "%s[::-1]", "%s[::2]", "%s[1::3]", "%s[1:20:3]", "%s[:5]", "%s[2:]", "%s[?@]", "%s[*]", "%s | sort(@)", "[%s, %s] | [0] | sort(@)", "%s[*] | sort(@)", "keys(%s)", "merge(%s)"}
 	for _, f := range fields {
 		for _, fn := range fns {
 			typedExprs = append(typedExprs, strings.Replace(fn, "%s", f, -1))
@@ -154,7 +210,7 @@ func (d DocSpec) Build() interface{} {
 		}
 		return v
 	case "typed":
-		return buildTyped(d.Name)
+		return buildTyped(d.Name, d.CapSeed)
 	}
 	panic("bad doc kind " + d.Kind)
 }
